@@ -84,6 +84,11 @@ func (s *c07Sys) Reset() {
 
 func (s *c07Sys) Close() { s.w.Close() }
 
+var c07Roots = [][]string{
+	{"login(alice,current,form)", "tick(97h)"},
+	{"login(alice,current,form)", "login(bob,current,form)", "sync"},
+}
+
 func (s *c07Sys) Ops() []string {
 	ops := []string{}
 	for _, u := range []string{"alice", "bob"} {
@@ -279,11 +284,14 @@ func (s *c07Sys) Apply(op string) (string, string, string) {
 			}
 		case "bump-expiry-alice":
 			n := vclock.Now().Add(10000 * time.Hour)
-			for _, db := range []*sql.DB{st.cacheDB} {
-				db.Exec("update expiring_signed_user_data set expiration_epoch=? where username='alice' and type=?", n.Unix(), c07Type)
-			}
-			if r := s.cache["alice"]; r != nil {
-				r.ColExp = n
+			// in whichever store holds the row according to the model (a row the model
+			// has dropped - swept as expired - may physically linger; it is left alone)
+			models := []map[string]*c07Rec{s.primary, s.cache}
+			for i, db := range []*sql.DB{st.db, st.cacheDB} {
+				if r := models[i]["alice"]; r != nil {
+					db.Exec("update expiring_signed_user_data set expiration_epoch=? where username='alice' and type=?", n.Unix(), c07Type)
+					r.ColExp = n
+				}
 			}
 		case "flip-byte-alice":
 			var jws string
@@ -531,7 +539,7 @@ func init() {
 	vfRegister(&vfeng.Check{
 		ID:    "C07",
 		Level: "model_checking",
-		Rule:  "explicit-state BFS with canonical-state deduplication over histories of {login with current/old/wrong/empty/other user's password via form or basic-auth and with a case variant of the name, directory all up / all down / first server down / second server down, password change, tick 1h/95h/97h, primary store up/outage (fault-injecting SQL driver), synchronisation (real copyDBIntoSQLite + cleanup), cache-row tampering: copy alice's row to bob, bump the expiry column, flip a byte} for two users on the real login handler, LDAP authenticator and storage layer; oracle = plain-map model of the directory and of both stores (signed subject, signed expiry, hashed password) compared on every transition for the verdict and for presence of the record in the stores; htpasswd and external-command backends are run once each",
+		Rule:  "explicit-state BFS with canonical-state deduplication over histories of {login with current/old/wrong/empty/other user's password via form or basic-auth and with a case variant of the name, directory all up / all down / first server down / second server down, password change, tick 1h/95h/97h, primary store up/outage (fault-injecting SQL driver), synchronisation (real copyDBIntoSQLite + cleanup), cache-row tampering: copy alice's row to bob, bump the expiry column, flip a byte} for two users on the real login handler, LDAP authenticator and storage layer, from the initial state (depth d) and from two non-initial states (alice cached 97 h ago; both users cached and synchronised; depth d-1); oracle = plain-map model of the directory and of both stores (signed subject, signed expiry, hashed password) compared on every transition for the verdict and for presence of the record in the stores; htpasswd and external-command backends are run once each",
 		Assumptions: []string{"the LDAP bind itself is stubbed at lib/authutil (seam inserted by verifgen): the wire protocol is out of scope", "refresh and eviction are demanded only while the primary store is reachable"},
 		Bounds: func(tier string) map[string]interface{} {
 			d := 4
@@ -549,6 +557,11 @@ func init() {
 			}
 			st := vfeng.Explore(c, &c07Sys{}, depth, 0)
 			c.Count("max_depth", int64(st.MaxDepth))
+			// search from non-initial states as well: a cached record that has outlived
+			// its 96 hours, and both users cached and synchronised; depth-1 more steps
+			for _, root := range c07Roots {
+				vfeng.ExploreFrom(c, &c07Sys{}, root, depth-1, 0)
+			}
 			if c.Shard == 0 {
 				c07OtherBackends(c)
 			}
